@@ -18,10 +18,10 @@ for m in "$out"/m*/; do
   git -C $W checkout -q -- . ; git -C $W clean -fdq
   git -C $W apply "$m/patch.diff" 2>/dev/null || { echo "m$k: patch does not apply"; continue; }
   if suite; then s1=pass; else s1=FAIL; fi
-  cp "$demo" "$W/$d"
+  mkdir -p "$(dirname "$W/$d")"; cp "$demo" "$W/$d"
   if (cd $W/$tdir && go test ${MUT_TEST_FLAGS:-} -vet=off -count=1 -run "$r" . >/dev/null 2>&1); then d1=pass; else d1=fail; fi
   git -C $W checkout -q -- . ; git -C $W clean -fdq
-  cp "$demo" "$W/$d"
+  mkdir -p "$(dirname "$W/$d")"; cp "$demo" "$W/$d"
   if (cd $W/$tdir && go test ${MUT_TEST_FLAGS:-} -vet=off -count=1 -run "$r" . >/dev/null 2>&1); then d0=pass; else d0=fail; fi
   rm -f "$W/$d"
   echo "m$k: suite_with_change=$s1 demo_with_change=$d1 demo_without_change=$d0"
